@@ -247,7 +247,35 @@ func c14Feed(cx *c14Ctx) {
 			}
 		}
 		if n == 0 {
-			ru.Ok(jq, p.Rel(root.Pos()), "no io.Copy stream (one-call codec API)")
+			// no stream: if the input's bits are read into a byte buffer first, the buffer holds the whole
+			// zero-padded byte view: io.ReadAll, or io.ReadFull into make([]byte, bitio.BitsByteCount(bits))
+			bad := ""
+			for _, f := range fns {
+				for _, ci := range fw.CallsIn(f) {
+					c, ok := ci.(*ssa.Call)
+					if !ok || c14Name(c) != "io.ReadFull" || len(c.Call.Args) != 2 {
+						continue
+					}
+					sized := false
+					buf := c.Call.Args[1]
+					if sl, ok := buf.(*ssa.Slice); ok {
+						buf = sl.X
+					}
+					if ms, ok := buf.(*ssa.MakeSlice); ok {
+						ln := ms.Len
+						if cv, ok := ln.(*ssa.Convert); ok {
+							ln = cv.X
+						}
+						if lc, ok := ln.(*ssa.Call); ok && lc.Call.StaticCallee() != nil && lc.Call.StaticCallee().Name() == "BitsByteCount" {
+							sized = true
+						}
+					}
+					if !sized {
+						bad = p.Rel(c.Pos())
+					}
+				}
+			}
+			ru.Check(bad == "", jq, p.Rel(root.Pos()), "no io.Copy stream (one-call codec API); any pre-read of the input is sized by BitsByteCount", jq+" reads its input into a buffer (io.ReadFull at "+bad+") that is not sized bitio.BitsByteCount(bit length): for an input that is not a whole number of bytes the zero-padded last byte is dropped, so the result differs from the reference codec applied to the same bytes the other conversions see")
 		}
 	}
 	for _, jq := range direct {
